@@ -47,16 +47,120 @@ def run(rep: core.Report):
     want_fn = tu.functions.get("get_dynmat_want")
     if want_fn is None:
         raise AnalysisError("anchor vanished: get_dynmat_want")
-    calls = [c for c in cast.walk(want_fn) if c.get("kind") == "CallExpr" and cast.callee_name(c) == "dym_get_charge_sum"]
-    if len(calls) != 2:
-        raise AnalysisError(f"R08a: expected two calls of dym_get_charge_sum in get_dynmat_want (zone centre with direction / elsewhere), found {len(calls)}")
+    from engine import cpaths
+
+    pnames = [p_.get("name") for p_ in cast.params(want_fn)]
+    for need in ("qpoint", "q_direction", "q_zero_tolerance"):
+        if need not in pnames:
+            raise AnalysisError(f"R08a: get_dynmat_want lost its parameter '{need}'")
+    # roles: the Cartesian q is what get_q_cart fills from the q-point; the Cartesian direction is the parameter that
+    # the caller fills by get_q_cart from its q_direction
+    qvec = None
+    for c in cast.walk(want_fn):
+        if c.get("kind") == "CallExpr" and cast.callee_name(c) == "get_q_cart" and cast.ref_name(cast.call_args(c)[1]) == "qpoint":
+            qvec = cast.ref_name(cast.call_args(c)[0])
+    dirvec = None
+    for fn_ in tu.functions.values():
+        filled = {cast.ref_name(cast.call_args(c)[0]) for c in cast.walk(fn_) if c.get("kind") == "CallExpr" and cast.callee_name(c) == "get_q_cart" and cast.ref_name(cast.call_args(c)[1]) == "q_direction"}
+        for c in cast.walk(fn_):
+            if c.get("kind") == "CallExpr" and cast.callee_name(c) == "get_dynmat_want":
+                for k_, a_ in enumerate(cast.call_args(c)):
+                    if cast.ref_name(a_) in filled and k_ < len(pnames):
+                        dirvec = pnames[k_]
+    if qvec is None or dirvec is None:
+        raise AnalysisError(f"R08a: cannot identify the Cartesian q ({qvec}) / the Cartesian direction ({dirvec}) of get_dynmat_want")
+
+    def classify(atom, truth, env):
+        """('small'|'dir', value) of an atomic condition"""
+        a0 = cast.strip(atom)
+        if cast.ref_name(a0) == "q_direction":
+            return "dir", truth
+        if a0.get("kind") == "BinaryOperator" and a0.get("opcode") in ("==", "!="):
+            l_, r_ = cast.kids(a0)
+            sides = [cast.ref_name(l_), cast.ref_name(r_)]
+            if "q_direction" in sides and not any(x.get("kind") == "DeclRefExpr" for y in (l_, r_) if cast.ref_name(y) != "q_direction" for x in cast.walk(y)):
+                return "dir", truth == (a0.get("opcode") == "!=")
+        if a0.get("kind") == "BinaryOperator" and a0.get("opcode") in ("<", "<=", ">", ">="):
+            l_, r_ = cast.kids(a0)
+            ln, rn = cast.ref_name(l_), cast.ref_name(r_)
+            other = l_ if rn == "q_zero_tolerance" else (r_ if ln == "q_zero_tolerance" else None)
+            if other is not None:
+                names = {x.get("referencedDecl", {}).get("name") for x in cast.walk(other) if x.get("kind") == "DeclRefExpr"}
+                grown = set()
+                while names - grown:  # through the once-assigned locals (q_norm = sqrt(q_cart . q_cart))
+                    nm = (names - grown).pop()
+                    grown.add(nm)
+                    if nm in env:
+                        names |= {x.get("referencedDecl", {}).get("name") for x in cast.walk(env[nm]) if x.get("kind") == "DeclRefExpr"}
+                leaves = {nm for nm in names if nm not in env} - {"sqrt", "fabs"}
+                if leaves != {qvec}:
+                    raise AnalysisError(f"R08a: the length compared with q_zero_tolerance is computed from {sorted(leaves)}, not from the Cartesian q-point '{qvec}'")
+                below = (a0.get("opcode") in ("<", "<=")) == (rn == "q_zero_tolerance")
+                return "small", truth == below
+        raise AnalysisError(f"R08a: unclassified condition '{cast.text(atom)}' in get_dynmat_want")
+
+    def vec_of(node, env):
+        n_ = cast.ref_name(node)
+        hops = 0
+        while n_ in env and hops < 8 and n_ not in (qvec, dirvec):
+            n_ = cast.ref_name(env[n_])
+            hops += 1
+        return n_
+
+    outcomes = {}  # (small, dir) -> set of (vector | None)
+    configs = {}  # vector name -> (call node, factor args node, env)
+    allp = cpaths.paths(want_fn)
+    for pth in allp:
+        env, facts, vec, dm_arg, order_ok = {}, {}, "<no call>", "<no call>", True
+        for ev in pth:
+            if ev[0] == "cond":
+                k_, v_ = classify(ev[1], ev[2], env)
+                if facts.get(k_, v_) != v_:
+                    facts = None
+                    break
+                facts[k_] = v_
+            elif ev[0] == "stmt":
+                as_ = cpaths.assignment(ev)
+                if as_:
+                    env[as_[0]] = as_[1]
+                for c in cpaths.calls(ev, "dym_get_charge_sum"):
+                    a_ = [cpaths.resolve(x, ev[2]) for x in cast.call_args(c)]
+                    vec = vec_of(a_[3], env)
+                    if dm_arg != "<no call>":
+                        order_ok = False
+                    configs.setdefault(vec, (c, a_, dict(env)))
+                for c in cpaths.calls(ev, "dym_get_dynamical_matrix_at_q"):
+                    a_ = [cpaths.resolve(x, ev[2]) for x in cast.call_args(c)]
+                    val = a_[10]
+                    hops = 0
+                    while cast.ref_name(val) in env and hops < 8:  # a local pointer: what it holds on this path
+                        val = env[cast.ref_name(val)]
+                        hops += 1
+                    dm_arg = "array" if any(x.get("kind") in ("DeclRefExpr", "CallExpr") for x in cast.walk(val)) else None
+        if facts is None:
+            continue
+        if dm_arg == "<no call>":
+            got = "<no dynamical matrix computed>"
+        elif dm_arg is None:
+            got = None
+        elif vec == "<no call>" or not order_ok:
+            got = "<charge sum handed over before it is computed>"
+        else:
+            got = vec
+        for sm in (True, False):
+            for dr in (True, False):
+                if facts.get("small", sm) == sm and facts.get("dir", dr) == dr:
+                    outcomes.setdefault((sm, dr), set()).add(got)
+    if not configs:
+        raise AnalysisError("R08a: no call of dym_get_charge_sum on any path of get_dynmat_want")
     ctx = celem.State(ex, "get_dynmat_want", {"nac_factor": sp.Symbol("nac_factor"), "n": N, "num_patom": n}, {}, 0)
     eps = sp.Function("dielectric")
-    for c in calls:
-        args = cast.call_args(c)
-        qname = cast.ref_name(cast.strip(args[3])) or cast.text(args[3])
+    for qname, (c, args, env_) in sorted(configs.items(), key=lambda kv: str(kv[0])):
+        qname = str(qname)
         factor = ctx.expr(args[2])
         factor = factor.subs({x: sp.Function(x.func.__name__)(*x.args) for x in factor.atoms(sp.Function)})
+        # a pointer local standing for the vector on this path (q_nac = q_direction ? q_dir_cart : q_cart)
+        factor = factor.subs({x: sp.Function(qname)(*x.args) for x in factor.atoms(sp.Function) if x.func.__name__ in env_ and vec_of(env_[x.func.__name__], env_) == qname})
         bad_form, bad_deg, bad_born, sample = [], [], [], None
         v = [sp.Function(qname)(k) for k in range(3)]
         Z = sp.Function("born")
@@ -81,9 +185,15 @@ def run(rep: core.Report):
                      f"scaling {qname} changes the addend for (a, b) in {bad_deg}: the zone-centre limit depends on the length of the direction", line=line)
         rep.instance("R08a", DYN, "get_dynmat_want", f"charge_sum[i, j][a][b] with v = {qname}: bilinear in the Born charges for all 9 (a, b)", not bad_born,
                      f"the addend is not proportional to Z_i Z_j for (a, b) in {bad_born}: zero Born charges do not switch the correction off", line=line, nontrivial=False)
-    # which vector is used where: the direction at the zone centre, q itself elsewhere
-    names = [cast.ref_name(cast.strip(cast.call_args(c)[3])) for c in calls]
-    rep.instance("R08a", DYN, "get_dynmat_want", f"vectors handed to the charge sum: {names}", set(names) == {"q_dir_cart", "q_cart"}, "the zone-centre branch and the general branch do not use the direction / the q-point respectively", line=tu.line(want_fn))
+    # which vector is used where (all paths through the function): the direction at the zone centre when one is given,
+    # no correction at the zone centre without one, q itself everywhere else whether or not a direction is given
+    want_o = {(True, True): {dirvec}, (True, False): {None}, (False, True): {qvec}, (False, False): {qvec}}
+    wrong = {k_: v_ for k_, v_ in outcomes.items() if v_ != want_o[k_]}
+    missing = [k_ for k_ in want_o if k_ not in outcomes]
+    def cls(k_):
+        return ("|q| below the tolerance" if k_[0] else "|q| above the tolerance") + (", direction given" if k_[1] else ", no direction")
+    rep.instance("R08a", DYN, "get_dynmat_want", f"vector of the non-analytical term on every path ({len(allp)} paths): " + "; ".join(f"{cls(k_)}: {sorted(map(str, outcomes.get(k_, [])))}" for k_ in want_o), not wrong and not missing,
+                 "; ".join(f"for {cls(k_)} the term is built from {sorted(map(str, v_))} instead of {sorted(map(str, want_o[k_]))}" for k_, v_ in wrong.items()) + ("; no path for " + ", ".join(cls(k_) for k_ in missing) if missing else "") + ": the direction replaces q only in the limit q -> 0; at finite q the term (and with it D(q), its Hermiticity relations between q and -q and its G-periodicity) must be that of q itself", line=tu.line(want_fn))
     # ---- R08c ------------------------------------------------------------
     gd = tu.functions.get("get_dm")
     if gd is None:
